@@ -169,6 +169,9 @@ func runC10(e *Env) {
 			simrt.GoNamed(fmt.Sprintf("closer%d", g), false, func() {
 				simrt.Sleep(int64(e.Pick(0, 1, 3, 10)) * 300000)
 				x.closedBy = "user"
+				if e.LocalCloseAt < 0 {
+					e.LocalCloseAt, e.ReaderTask = simrt.Step(), "reader"
+				}
 				x.c.Close()
 				x.closed = true
 			})
